@@ -180,6 +180,24 @@ def gen_scenario(rng: random.Random, feat: dict | None = None) -> dict:
                 sel = rng.sample(ids, 1)
                 scn["ops"].append({"tick": tick, "cmd": "release", "args": {"tasks": [f"{p}/{t}" for p, t in sel]}})
         scn["ops"].sort(key=lambda o: o["tick"])
+    if feat.get("restart"):
+        for _ in range(rng.choice([1, 1, 2])):
+            scn["ops"].append({"tick": rng.randint(0, 10), "cmd": "restart",
+                               "mode": rng.choice(["now", "now", "clean", "now-now"])})
+        scn["ops"].sort(key=lambda o: o["tick"])
+        scn["baseline"] = True
+    if feat.get("stop"):
+        r = rng.random()
+        tick = rng.randint(0, 8)
+        if r < 0.4:
+            scn["ops"].append({"tick": tick, "cmd": "stop", "args": {"mode": None, "cycle_point": str(rng.randint(icp, fcp))}})
+        elif r < 0.65:
+            g = sorted(instance_graph(scn)["inst"])
+            pnt, t = rng.choice(g)
+            scn["ops"].append({"tick": tick, "cmd": "stop", "args": {"mode": None, "task": f"{pnt}/{t}"}})
+        else:
+            scn["ops"].append({"tick": tick, "cmd": "stop", "args": {"mode": rng.choice(["REQUEST_CLEAN", "REQUEST_NOW", "REQUEST_NOW_NOW"])}})
+        scn["ops"].sort(key=lambda o: o["tick"])
     if feat.get("queues") and rng.random() < 0.6:
         ms = rng.sample(tasks, rng.randint(1, len(tasks)))
         scn["queues"]["q1"] = {"limit": rng.choice([1, 1, 2]), "members": ms}
